@@ -1,2 +1,265 @@
-// Package c14: implementation-side ops, generators and oracles for property C14.
+// Package c14: no input can crash a handler or make it consume unbounded resources (C14).
+//
+// The decoders that have Lean models carry no-panic/termination THEOREMS (Props/C14.lean collects
+// them; their correspondence runs on the malformed streams of C01/C03/C10/C12/C20 …). This package
+// adds (a) a sweep of every registered decoder op over a shared malformed stream, compared with the
+// model where one exists, and (b) boundary-directed and mutation fuzzing of the decoders that are
+// NOT modelled (SQL parsers of both dialects, pg_query, YAML configuration of encryptor and
+// firewall, the ASN.1 key-ring reader) under a per-op timeout and memory limit. (b) supports the
+// search for failing inputs; it is exploration, not a theorem, and the evidence says so.
 package c14
+
+import (
+	"bytes"
+	"fmt"
+	"os"
+	"path/filepath"
+	"strings"
+	"time"
+
+	acracensor "github.com/cossacklabs/acra/acra-censor"
+	"github.com/cossacklabs/acra/encryptor/base/config"
+	"github.com/cossacklabs/acra/keystore/v2/keystore/asn1"
+	"github.com/cossacklabs/acra/sqlparser"
+	mydialect "github.com/cossacklabs/acra/sqlparser/dialect/mysql"
+	pgdialect "github.com/cossacklabs/acra/sqlparser/dialect/postgresql"
+	pg_query "github.com/cossacklabs/pg_query_go/v5"
+
+	"verifharness/internal/core"
+	env "verifharness/internal/envops"
+)
+
+func outcome(err error) string {
+	if err != nil {
+		return core.Err
+	}
+	return "ok"
+}
+
+func init() {
+	core.RegisterProp("C14", run)
+	core.Register("C14.sql", func(a []string) string { // dialect text
+		q := string(core.UnHex(a[1]))
+		var st sqlparser.Statement
+		var err error
+		if a[0] == "mysql" {
+			st, err = sqlparser.ParseWithDialect(mydialect.NewMySQLDialect(), q)
+		} else {
+			st, err = sqlparser.ParseWithDialect(pgdialect.NewPostgreSQLDialect(), q)
+		}
+		if err != nil {
+			return core.Err
+		}
+		_ = sqlparser.String(st) // re-serialisation walks the whole tree
+		_, _ = sqlparser.RedactSQLQuery(q)
+		return "ok"
+	})
+	core.Register("C14.sqlraw", func(a []string) string { // HandleRawSQLQuery in both parser modes
+		q := string(core.UnHex(a[0]))
+		_, _, _, e1 := sqlparser.New(sqlparser.ModeStrict).HandleRawSQLQuery(q)
+		_, _, _, e2 := sqlparser.New(sqlparser.ModeDefault).HandleRawSQLQuery(q)
+		return outcome(e1) + " " + outcome(e2)
+	})
+	core.Register("C14.pgquery", func(a []string) string {
+		_, err := pg_query.Parse(string(core.UnHex(a[0])))
+		return outcome(err)
+	})
+	core.Register("C14.censorconfig", func(a []string) string {
+		c := acracensor.NewAcraCensor()
+		defer c.ReleaseAll()
+		return outcome(c.LoadConfiguration(core.UnHex(a[0])))
+	})
+	core.Register("C14.encconfig", func(a []string) string {
+		_, e1 := config.MapTableSchemaStoreFromConfig(core.UnHex(a[0]), config.UsePostgreSQL)
+		_, e2 := config.MapTableSchemaStoreFromConfig(core.UnHex(a[0]), config.UseMySQL)
+		return outcome(e1) + " " + outcome(e2)
+	})
+	core.Register("C14.asn1", func(a []string) string {
+		b := core.UnHex(a[0])
+		_, e1 := asn1.UnmarshalVerifiedContainer(b)
+		_, e2 := asn1.UnmarshalKeyRing(b)
+		_, e3 := asn1.UnmarshalKeyDirectory(b)
+		_, e4 := asn1.UnmarshalEncryptedKeys(b)
+		return outcome(e1) + " " + outcome(e2) + " " + outcome(e3) + " " + outcome(e4)
+	})
+}
+
+// ---------- seeds ----------
+
+var sqlSeeds = []string{
+	"select a, b from t where c = 'x' and d in (1, 2, 3) order by a limit 10",
+	"insert into t (a, b) values (1, 'x'), (2, E'y\\n')",
+	"update t set a = 1, b = X'ab' where c = 0x1f and d = b'101'",
+	"delete from t where a = (select max(a) from u) returning *",
+	"select * from t1 join t2 on t1.a = t2.b left join t3 using (c) where t1.x between 1 and 2",
+	"select case when a > 1 then 'x' else 'y' end, cast(a as char(10)), interval 1 day from t",
+	"prepare s from 'select 1'; execute s using @a",
+	"select \"a\" from \"T\" where \"b\" = $1 /* c */ -- d",
+	"create table t (a int primary key, b varchar(10) default 'q')",
+	"select a from t union all select b from u order by 1",
+}
+
+func readSeeds(glob string) [][]byte {
+	var out [][]byte
+	ms, _ := filepath.Glob(glob)
+	for _, m := range ms {
+		if b, err := os.ReadFile(m); err == nil && len(b) < 1<<16 {
+			out = append(out, b)
+		}
+	}
+	return out
+}
+
+// mutate returns a structurally damaged copy of a seed.
+func mutate(rd *core.Rand, s []byte) []byte {
+	x := append([]byte{}, s...)
+	for n := 1 + rd.Intn(3); n > 0 && len(x) > 0; n-- {
+		switch rd.Intn(8) {
+		case 0:
+			x[rd.Intn(len(x))] ^= 1 << uint(rd.Intn(8))
+		case 1:
+			x = x[:rd.Intn(len(x))]
+		case 2:
+			i := rd.Intn(len(x))
+			x = append(x[:i:i], append(rd.Bytes(1+rd.Intn(4)), x[i:]...)...)
+		case 3: // duplicate a chunk
+			i := rd.Intn(len(x))
+			j := i + rd.Intn(len(x)-i)
+			x = append(x[:j:j], append(append([]byte{}, x[i:j]...), x[j:]...)...)
+		case 4: // delete a chunk
+			i := rd.Intn(len(x))
+			j := i + rd.Intn(len(x)-i)
+			x = append(x[:i:i], x[j:]...)
+		case 5:
+			i := rd.Intn(len(x))
+			x[i] = []byte{0, 0xff, '\'', '"', '\\', '(', ')', '%', ':', '-', '\n', '{', '['}[rd.Intn(13)]
+		case 6: // splice in boundary number
+			i := rd.Intn(len(x))
+			n := []string{"0", "-1", "9223372036854775807", "9223372036854775808", "18446744073709551616", "1e999", "0x", "4294967296"}[rd.Intn(8)]
+			x = append(x[:i:i], append([]byte(n), x[i:]...)...)
+		default:
+			i := rd.Intn(len(x))
+			x = append(x[:i:i], append(bytes.Repeat([]byte{x[i]}, 1+rd.Intn(64)), x[i:]...)...)
+		}
+	}
+	return x
+}
+
+func run(r *core.Run) {
+	r.Rule = "decoders without a Lean model (SQL parser of both dialects incl. re-serialisation and redaction, pg_query, encryptor/censor YAML, ASN.1 key-ring reader) on seeds from the repository (configs/, tests/, statement tables) × 8 mutation operators + deep nesting + garbage, each under a timeout and a heap watchdog; plus a sweep of the modelled envelope decoders on the same garbage compared with the model; non-trivial = non-empty input; distinct by input bytes. Exploration (search support), not a theorem."
+	rd := r.Rand
+	guard := func(op string, in []byte, line string, isolated bool) {
+		var out string
+		if isolated {
+			out = r.ImplIsolated(line, 20*time.Second)
+		} else {
+			done := make(chan string, 1)
+			go func() { done <- r.Impl(line) }()
+			select {
+			case out = <-done:
+			case <-time.After(10 * time.Second):
+				out = "timeout"
+			}
+		}
+		r.Tag("op:"+op, "outcome:"+strings.SplitN(out, " ", 2)[0])
+		what := fmt.Sprintf("%s on %d bytes (%q…)", op, len(in), string(in[:min(len(in), 60)]))
+		r.Check(out != core.Panic, "panic:"+op, what+" panics: "+firstLine(core.LastPanic))
+		r.Check(out != "timeout" && out != "oom", "hang:"+op, what+" does not terminate / exhausts memory: "+out)
+	}
+	// 1. SQL
+	var sql [][]byte
+	for _, s := range sqlSeeds {
+		sql = append(sql, []byte(s))
+	}
+	n := r.N(1500, 60000)
+	for i := 0; i < n; i++ {
+		x := mutate(rd, core.Pick(rd, sql))
+		r.Begin("sql-"+core.Hex(x), len(x) > 0, "stream:sql-mutation")
+		guard("C14.sql", x, "C14.sql "+[]string{"mysql", "postgresql"}[i%2]+" "+core.Hex(x), false)
+		if i%4 == 0 {
+			guard("C14.sqlraw", x, "C14.sqlraw "+core.Hex(x), false)
+		}
+		if i%8 == 0 {
+			guard("C14.pgquery", x, "C14.pgquery "+core.Hex(x), false)
+		}
+	}
+	// deep nesting: parentheses, sub-selects, unary operators, long IN lists, long strings
+	depths := []int{10, 200, 2000}
+	if r.Thorough() {
+		depths = append(depths, 20000, 100000)
+	}
+	for _, d := range depths {
+		nest := []string{
+			"select " + strings.Repeat("(", d) + "1" + strings.Repeat(")", d),
+			"select a from t where " + strings.Repeat("not ", d) + "b",
+			"select " + strings.Repeat("-", d) + "1",
+			"select a from t where b in (" + strings.Repeat("1,", d) + "1)",
+			"select '" + strings.Repeat("x", d*10) + "'",
+			"select * from " + strings.Repeat("(select * from ", min(d, 3000)) + "t" + strings.Repeat(") as s", min(d, 3000)),
+			"select 1" + strings.Repeat(" union select 1", min(d, 5000)),
+		}
+		for k, q := range nest {
+			r.Begin(fmt.Sprintf("sql-nest-%d-%d", d, k), true, "stream:sql-nesting")
+			for _, dia := range []string{"mysql", "postgresql"} {
+				guard("C14.sql", []byte(q), "C14.sql "+dia+" "+core.Hex([]byte(q)), true)
+			}
+			guard("C14.sqlraw", []byte(q), "C14.sqlraw "+core.Hex([]byte(q)), true)
+		}
+	}
+	// 2. YAML configurations
+	enc := readSeeds("/repo/configs/acra-encryptor*.yaml")
+	enc = append(enc, readSeeds("/repo/tests/*encryptor*.yaml")...)
+	cen := readSeeds("/repo/configs/acra-censor*.yaml")
+	cen = append(cen, readSeeds("/repo/tests/*censor*.yaml")...)
+	cen = append(cen, readSeeds("/repo/acra-censor/*.yaml")...)
+	r.Extra["yaml_seeds"] = map[string]int{"encryptor": len(enc), "censor": len(cen)}
+	for i := 0; i < r.N(300, 6000); i++ {
+		if len(enc) > 0 {
+			x := mutate(rd, core.Pick(rd, enc))
+			r.Begin("encconfig-"+core.Hex(x[:min(len(x), 40)])+fmt.Sprint(len(x), i), true, "stream:yaml-mutation")
+			guard("C14.encconfig", x, "C14.encconfig "+core.Hex(x), false)
+		}
+		if len(cen) > 0 {
+			x := mutate(rd, core.Pick(rd, cen))
+			r.Begin("censorconfig-"+core.Hex(x[:min(len(x), 40)])+fmt.Sprint(len(x), i), true, "stream:yaml-mutation")
+			guard("C14.censorconfig", x, "C14.censorconfig "+core.Hex(x), false)
+		}
+	}
+	// 3. ASN.1 key-ring reader: mutations of DER-looking seeds and garbage
+	der := [][]byte{
+		{0x30, 0x03, 0x02, 0x01, 0x01},
+		{0x30, 0x80, 0x00, 0x00},
+		{0x30, 0x84, 0xff, 0xff, 0xff, 0xff},
+		{0x69, 0x6e, 0x30, 0x0a, 0x04, 0x03, 1, 2, 3, 0x30, 0x03, 0x02, 0x01, 0x00},
+	}
+	for i := 0; i < r.N(600, 30000); i++ {
+		x := mutate(rd, core.Pick(rd, der))
+		if i%3 == 0 {
+			x = rd.Bytes(rd.Intn(64))
+		}
+		r.Begin("asn1-"+core.Hex(x), len(x) > 0, "stream:asn1")
+		guard("C14.asn1", x, "C14.asn1 "+core.Hex(x), false)
+	}
+	// 4. sweep of the modelled envelope decoders on garbage / tag-rich input, compared with the model
+	kv := env.NewKV(rd, 1, 1)
+	for i := 0; i < r.N(400, 20000); i++ {
+		x := env.Junk(rd, 220)
+		x = x[:len(x):len(x)]
+		r.Begin("env-"+core.Hex(x), len(x) > 0, "stream:envelope-garbage")
+		for _, op := range []string{"struct.validate", "struct.extract", "block.extract", "container.deser", "container.extract", "handler.match"} {
+			out := r.Do("C01." + op + " " + core.Hex(x))
+			r.Check(out != core.Panic, "panic:"+op, op+" panics on tag-rich garbage")
+		}
+		for _, op := range []string{"handler.reveal", "detector.oncolumn", "detector.compat"} {
+			out := r.Do(fmt.Sprintf("C01.%s %s %s", op, kv.Tokens(), core.Hex(x)))
+			r.Check(out != core.Panic, "panic:"+op, op+" panics on tag-rich garbage")
+		}
+	}
+}
+
+func firstLine(s string) string {
+	if i := strings.IndexByte(s, '\n'); i >= 0 {
+		return s[:i]
+	}
+	return s
+}
